@@ -21,7 +21,8 @@ MANIFEST = dict(
          "platform x cfg x log combination outside an exact 18-entry list satisfies Req (one kernel-evaluated obligation per "
          "table, composed per combination) and the listed ones provably fail. Tie: constants and the guard operator are "
          "regenerated from the source; the member model is checked by a reflective correspondence (dir() of every reachable "
-         "object of the REAL facades, a member the model does not know is a failure) exhaustive over all 895 combinations.",
+         "object of the REAL facades, a member the model does not know is a failure) exhaustive over all 895 combinations."
+         ' Since session 3: update histories (unit flip, temperature change, flip back) reach the block through replace_status_block_segment - the notification chain runs - and every member must read as the model says for the final block.',
     note="Trusted: Lean kernel; harness/packs.py table extraction; the stub spa (struct + accessors, as tests/test_snapshots.py); "
          "the canonicaliser. Members that start I/O (async_*, set_*, turn_on/off, update) are C13's. Float digits are C14's: the "
          "model predicts only that a temperature member is a float / its rendering a str. has_observers, object reprs, "
